@@ -146,8 +146,9 @@ def main():
         tb = traceback.format_exc()
         ctx.violation('check crashed: ' + tb.splitlines()[-1], 'the check itself failed\n' + tb, found_input=False)
     # a broken proof obligation / translation with no failing input found is still a violation
+    # (a failing input that is a listed known finding does not count: it must not hide a broken obligation)
     broken = ctx.broken_obligations()
-    if broken and not any(v['found_input'] for v in ctx.violations):
+    if broken and not any(v['found_input'] and matches_known(v, pid) is None for v in ctx.violations):
         txt = 'proof / translation / correspondence obligations that no longer check:\n' + '\n'.join(f'  {n}: {d}' for n, d in broken)
         ctx.violation('obligation(s) broken: ' + ', '.join(n for n, _ in broken[:4]), txt, found_input=False)
     nviol = 0
